@@ -42,6 +42,9 @@ def compare(dirty, clean):
         return []  # stopped by the wall-clock watchdog: not a function of the arguments
     if b.get('args_modified'):
         vios.append(('C11:arguments-modified:' + '+'.join(b['args_modified']), f"research.backtest modified its arguments {b['args_modified']}"))
+    for m in dirty.get('late_arg_mutations') or []:
+        vios.append(('C11:arguments-of-an-earlier-call-modified-by-a-later-call:' + '+'.join(m['modified']),
+                     f"the {m['modified']} passed to call {m['call']} of {m['of']} were modified in place by a later call"))
     if a.get('args_modified') and not b.get('args_modified'):
         vios.append(('C11:arguments-modified-after-history:' + '+'.join(a['args_modified']), f"{a['args_modified']}"))
     if (a['error'] or {}).get('type') != (b['error'] or {}).get('type'):
